@@ -202,8 +202,10 @@ class Decode:
                 continue
 
             self.acs[icao]["icao"] = icao
-            self.acs[icao]["t"] = t
-            self.acs[icao]["live"] = int(t)
+            # a Comm-B reply may be older than the last ADS-B message of the
+            # same batch: never move the time of the last contact backwards
+            self.acs[icao]["t"] = max(self.acs[icao]["t"], t)
+            self.acs[icao]["live"] = max(self.acs[icao]["live"], int(t))
 
             bds = pms.bds.infer(msg)
 
